@@ -1779,7 +1779,7 @@ def deviants_tie(ctx):
     ctx.extra['table_deviants'] = dict(policy=pol, guards=grd, clamps=clm)
     acc_fail = sorted({sg.split(':')[1] for sg in SIGNATURES
                        if sg.split(':')[1] in ACCESSOR_NAMES and 'grid-point' not in sg and ':sequence:' not in sg})
-    grd_fail = sorted({sg.split(':')[1] for sg in SIGNATURES if ':nonpositive-' in sg})
+    grd_fail = sorted({sg.split(':')[1] for sg in SIGNATURES if ':nonpositive-' in sg or ':zero-guard-loses-to-range-policy' in sg})
     ctx.traces += 2
     if acc_fail != sorted(pol):
         ctx.disagreements += 1
